@@ -503,7 +503,8 @@ Proof.
       eapply good_bind; [apply (next_item_after_token s2 0)|].
       { split; [exact HI2|]. split; [exact Hn|]. left. lia. }
       intros s3 _ (HI3 & Hw3 & Hf3 & _). cbn [good snd]. split; [exact HI3|]. split; [lia|exact Hf3].
-    + destruct (if name_max_ge then Nat.leb name_max w1 else Nat.ltb name_max w1); [exact I|].
+    + destruct (name_rejects_empty_label && Nat.eqb w1 (S w)); [exact I|].
+      destruct (if name_max_ge then Nat.leb name_max w1 else Nat.ltb name_max w1); [exact I|].
       apply IH; auto.
       rewrite (rest_length s HI) in Hf. rewrite (rest_length s1 HI1). unfold Inv in *. rewrite P1. lia.
   - (* LEnd *)
